@@ -25,7 +25,15 @@ pub struct SerCase {
 pub fn gen_case(run_seed: u64, tier: Tier) -> SerCase {
     let mut rng = stream(run_seed, "workload");
     let mut frng = stream(run_seed, "faults");
-    let spec = gen_spec(&mut rng, tier);
+    let mut spec = gen_spec(&mut rng, tier);
+    // one run in 40: a bit structure shaped after the select inventories (block / subblock / span boundaries)
+    if rng.chance(1, 40) {
+        use crate::ds::Flat;
+        spec = Spec::Bits {
+            kind: *rng.pick(&[Flat::DArray, Flat::DArray0, Flat::DArray, Flat::DArray0, Flat::RSNarrow, Flat::RSWide]),
+            bits: crate::spec::gen_inventory_shaped_bits(&mut rng),
+        };
+    }
     let cfg = frng.below(5) as u8;
     let plan = if frng.below(10) < 4 {
         None
